@@ -80,7 +80,7 @@ class JsonRpcError(BaseError, metaclass=JsonRpcErrorMeta):
                 raise DeserializationError("data must be of type dict")
 
             code = json_data['code']
-            if not isinstance(code, int):
+            if isinstance(code, bool) or not isinstance(code, int):
                 raise DeserializationError("field 'code' must be of type integer")
 
             message = json_data['message']
